@@ -1,4 +1,5 @@
 import GoSquare.Proofs.SquareWF
+import GoSquare.Proofs.BuildSquare
 import GoSquare.Properties.C09
 import GoSquare.Properties.C10
 /-! C20 (second half): sequence parsing (`ParseShares`) tiles every constructed square exactly.
@@ -286,12 +287,6 @@ theorem isSeq_compact (ns : Bytes) (hc : CompactNs ns) (units : List Bytes) (hne
 /-- a record that is a block carrying the namespace of its first share -/
 def Good (q : Sequence) : Prop := IsSeq q.shares ∧ seqOf q.shares = q
 
-theorem flatten_replicate_singleton {α : Type} (k : Nat) (a : α) :
-    (List.replicate k [a]).flatten = List.replicate k a := by
-  induction k with
-  | zero => rfl
-  | succ k ih => simp [List.replicate_succ, ih]
-
 /-- the sequences of the blob region: before every blob but the first, one padding sequence per
     padding share (namespace and share version of the preceding blob); then the blob's sequence -/
 def regionSeqs (thr : Nat) : Nat → Option Blob → List Element → List Sequence
@@ -355,7 +350,7 @@ theorem regionSeqs_filter (thr : Nat) : ∀ (es : List Element) (cur : Nat) (pre
       | none => rfl
       | some p =>
         have hpv := hp p rfl
-        simp [List.filter_replicate, padSeq_isPadding p.ns p.ver hpv.valid.nsLen hpv.valid.ver]
+        simp [padSeq_isPadding p.ns p.ver hpv.valid.nsLen hpv.valid.ver]
     rw [h1]
     simp [blobSeq_not_padding e.blob hev]
 
@@ -470,3 +465,197 @@ theorem parseShares_squareOf (thr : Nat) (N : List Bytes) (B : List BlobTx) (ss 
   simp only [Bool.true_and, squareSeqs, List.filter_append, h1, h2, List.filter_replicate, hpadR, hpadT,
     regionSeqs_filter thr _ _ none (sortedElems_blobValid thr B hv) (fun p h => by cases h)]
   simp [compactSeqRec, blobSeq]
+
+/-! ### payloads: `Sequence.RawData` of the blob and compact sequences -/
+
+theorem foldl_rawData : ∀ (l : List Bytes) (init : Bytes),
+    l.foldl (fun acc s => acc ++ Share.rawData s) init = init ++ (l.map Share.rawData).flatten
+  | [], init => by simp
+  | s :: l, init => by simp [foldl_rawData l, List.append_assoc]
+
+theorem slice_prefix (d z : Bytes) : slice (d ++ z) 0 d.length = .ok d := by simp [slice]
+
+/-- a sequence whose first share declares `|d|` and whose payloads concatenate to `d` followed by
+    fill has payload `d` -/
+theorem rawData_of (q : Sequence) (first : Bytes) (rest : List Bytes) (d z : Bytes) (hq : q.shares = first :: rest)
+    (hlen : Share.sequenceLen first = d.length) (hdata : (q.shares.map Share.rawData).flatten = d ++ z) :
+    q.rawData = .ok d := by
+  have hn : ¬ (d.length > (d ++ z).length) := by simp
+  simp only [Sequence.rawData, Sequence.sequenceLen, foldl_rawData, List.nil_append, hdata]
+  rw [hq]
+  simp only [res_bind_ok, hlen, hn, if_false]
+  exact slice_prefix d z
+
+/-- **the payload of a blob's sequence is the blob's data** -/
+theorem blobSeq_rawData (b : Blob) (hb : b.BlobValid) : (blobSeq b).rawData = .ok b.data := by
+  obtain ⟨⟨_, _, _, _, _, _, f7⟩, hcont⟩ := C10.accessors_on_blob_shares b hb
+  have hcap : 1 ≤ 478 - (if b.ver = 1 then b.signer.getD [] else ([] : Bytes)).length := by
+    obtain ⟨⟨_, _, hver, hsig, _, _⟩, _⟩ := hb
+    rcases hver with h | h
+    · have : ¬ b.ver = 1 := by omega
+      simp [this]
+    · obtain ⟨sg, hs, hl⟩ := hsig.2 h
+      simp [h, hs, hl]
+  obtain ⟨k, hk⟩ := reassemble _ hcap b.data
+  refine rawData_of (blobSeq b) (sparseFirst b) (sparseRest b) b.data (zeros k) rfl (sparseFirst_acc b hb).2.2.2.1 ?_
+  have hrest : (sparseRest b).map Share.rawData =
+      (chunksOf 482 (b.data.drop (478 - (if b.ver = 1 then b.signer.getD [] else ([] : Bytes)).length))).map contPayload := by
+    unfold sparseRest
+    rw [List.map_map]
+    apply List.map_congr_left
+    intro c hc
+    exact (hcont c (chunksOf_le 482 _ c hc)).2.2
+  show ((sparseFirst b :: sparseRest b).map Share.rawData).flatten = _
+  rw [List.map_cons, List.flatten_cons, hrest, ← hk]
+  congr 1
+
+theorem specShare_rawData (ns : Bytes) (hc : CompactNs ns) (D : Bytes) (S : List Nat) (j : Nat) :
+    Share.rawData (specShare ns D S j) = compactPayload D j := by
+  by_cases hj : j = 0
+  · subst hj
+    exact (first_compact_accessors ns (be32 D.length) (compactPayload D 0) (resOf S 0) hc (by simp)
+      (by rw [compactPayload_length]; rfl) (resOf_lt S 0) _ (specShare_form0 ns D S hc.len)).2.1
+  · exact (cont_compact_accessors ns (compactPayload D j) (resOf S j) hc
+      (by rw [compactPayload_length]; simp [compactCap, hj]) (resOf_lt S j) _ (specShare_formJ ns D S j hj hc.len)).2.1
+
+/-- **the payload of a compact sequence is the stream of its length-prefixed units** -/
+theorem compactSeqRec_rawData (ns : Bytes) (hc : CompactNs ns) (units : List Bytes) (hne : units ≠ [])
+    (hlt : (unitStream units).length < 4294967296) :
+    (compactSeqRec ns units).rawData = .ok (unitStream units) := by
+  obtain ⟨m, hm⟩ := compactSeq_cons ns units hne
+  have hpos := unitStream_pos units hne
+  obtain ⟨hb1, hb2⟩ := C09.compactCount_bounds _ hpos
+  refine rawData_of (compactSeqRec ns units) _ _ (unitStream units)
+    (zeros (compactOff (compactCount (unitStream units).length) - (unitStream units).length)) hm
+    (compactFirst_acc ns hc units hlt).2.2 ?_
+  show ((compactSeq ns units).map Share.rawData).flatten = _
+  rw [compactSeq_eq, List.map_map]
+  have : (List.range (compactCount (unitStream units).length)).map
+      (Share.rawData ∘ specShare ns (unitStream units) (unitStarts 0 units)) =
+      (List.range (compactCount (unitStream units).length)).map (compactPayload (unitStream units)) :=
+    List.map_congr_left (fun j _ => specShare_rawData ns hc _ _ j)
+  rw [this, payload_concat _ _ (fun _ => Nat.le_of_lt hb1), List.take_of_length_le hb2]
+
+/-! ### on the squares `Build` / `Construct` return -/
+
+/-- what is left of the square's sequences when padding is ignored -/
+def dataSeqs (thr : Nat) (N : List Bytes) (B : List BlobTx) : List Sequence :=
+  (if N = [] then [] else [compactSeqRec txNamespace N]) ++
+  (if B = [] then [] else [compactSeqRec payForBlobNamespace ((patched thr N B).map (·.marshal))]) ++
+  (sortedElems thr B).map (fun e => blobSeq e.blob)
+
+theorem parseShares_squareOf' (thr : Nat) (N : List Bytes) (B : List BlobTx) (ss : Nat)
+    (hv : ∀ t ∈ B, ∀ bl ∈ t.blobs, bl.BlobValid)
+    (hst1 : (unitStream N).length < 4294967296)
+    (hst2 : (unitStream ((patched thr N B).map (·.marshal))).length < 4294967296) :
+    parseShares (squareOf thr N B ss) true = .ok (dataSeqs thr N B) :=
+  parseShares_squareOf thr N B ss hv hst1 hst2
+
+/-- the payloads of the data sequences of a square: the two unit streams, and for every blob, in
+    write order, exactly the blob's data -/
+theorem dataSeqs_payloads (thr : Nat) (N : List Bytes) (B : List BlobTx)
+    (hv : ∀ t ∈ B, ∀ bl ∈ t.blobs, bl.BlobValid)
+    (hst1 : (unitStream N).length < 4294967296)
+    (hst2 : (unitStream ((patched thr N B).map (·.marshal))).length < 4294967296) :
+    (N ≠ [] → (compactSeqRec txNamespace N).rawData = .ok (unitStream N)) ∧
+    (B ≠ [] → (compactSeqRec payForBlobNamespace ((patched thr N B).map (·.marshal))).rawData =
+      .ok (unitStream ((patched thr N B).map (·.marshal)))) ∧
+    ∀ e ∈ sortedElems thr B, (blobSeq e.blob).rawData = .ok e.blob.data :=
+  ⟨fun hN => compactSeqRec_rawData _ compactNs_tx N hN hst1,
+   fun hB => compactSeqRec_rawData _ compactNs_pfb _ (fun h => hB ((patched_units_eq_nil_iff thr N B).mp h)) hst2,
+   fun e he => blobSeq_rawData e.blob (sortedElems_blobValid thr B hv e he)⟩
+
+/-- the one-share square of the empty transaction list: one tail-padding sequence, nothing when
+    padding is ignored -/
+theorem parseShares_emptySquare :
+    parseShares [paddingShare tailPaddingNamespace 0] false = .ok [padSeq tailPaddingNamespace 0] ∧
+    parseShares [paddingShare tailPaddingNamespace 0] true = .ok [] := by
+  have hg : ∀ q ∈ [padSeq tailPaddingNamespace 0], IsSeq q.shares ∧ seqOf q.shares = q := by
+    intro q hq
+    rw [List.mem_singleton.mp hq]; exact padSeq_good _ 0 (by decide) (Or.inl rfl)
+  have hp : (padSeq tailPaddingNamespace 0).isPadding = true := padSeq_isPadding _ 0 (by decide) (Or.inl rfl)
+  have h1 := parseShares_seqs [padSeq tailPaddingNamespace 0] false hg
+  have h2 := parseShares_seqs [padSeq tailPaddingNamespace 0] true hg
+  simp only [List.map_cons, List.map_nil, List.flatten_cons, List.flatten_nil, List.append_nil, padSeq] at h1 h2
+  refine ⟨by rw [h1]; simp [padSeq], ?_⟩
+  rw [h2]
+  simp only [padSeq] at hp
+  simp [hp]
+
+/-- **C20 on every square in closed form** (`IsSquareOf`: what `Build` and `Construct` return for
+    the kept ordinary transactions `N` and blob transactions `bl`). -/
+theorem parseShares_isSquareOf (dec : Bytes → Decoded) (hdec : DecValid dec) (max thr : Nat)
+    (hsz : 478 * (max * max) < 4294967296) (N bl : List Bytes)
+    (hblb : ∀ r ∈ bl, dec r = .blobTx (decB dec r))
+    (hfit : closedEstimate thr N (bl.map (decB dec)) ≤ max * max)
+    (sq : List Bytes) (h : IsSquareOf dec thr N bl sq) :
+    parseShares sq true = .ok (dataSeqs thr N (bl.map (decB dec))) ∧
+    ∃ qs, parseShares sq false = .ok qs ∧ (qs.map (·.shares)).flatten = sq ∧ (∀ q ∈ qs, Good q) ∧
+      qs.filter (fun q => !q.isPadding) = dataSeqs thr N (bl.map (decB dec)) := by
+  have hv := decValid_kept dec hdec bl hblb
+  rcases h with ⟨rfl, rfl, rfl⟩ | ⟨hne, rfl, g1, g2, g4⟩
+  · obtain ⟨e1, e2⟩ := parseShares_emptySquare
+    have hd : dataSeqs thr [] (([] : List Bytes).map (decB dec)) = [] := by
+      simp [dataSeqs, sortedElems, allElements]
+    rw [hd]
+    refine ⟨e2, [padSeq tailPaddingNamespace 0], e1, by simp [padSeq], ?_, ?_⟩
+    · intro q hq
+      rw [List.mem_singleton.mp hq]; exact padSeq_good _ 0 (by decide) (Or.inl rfl)
+    · have hp : (padSeq tailPaddingNamespace 0).isPadding = true := padSeq_isPadding _ 0 (by decide) (Or.inl rfl)
+      simp [hp]
+  · generalize hB : bl.map (decB dec) = B at *
+    have hle1 : txShareCount N ≤ closedEstimate thr N B := by unfold closedEstimate txShareCount; omega
+    have hle2 : pfbShareCount B ≤ closedEstimate thr N B := by unfold closedEstimate pfbShareCount; omega
+    have hst1 : (unitStream N).length < 4294967296 := by
+      have := stream_le_shares (unitStream N).length
+      rw [← compactSeq_length txNamespace, ← txShareCount_eq] at this
+      omega
+    have hst2 : (unitStream ((patched thr N B).map (·.marshal))).length < 4294967296 := by
+      have := stream_le_shares (unitStream ((patched thr N B).map (·.marshal))).length
+      rw [← compactSeq_length payForBlobNamespace] at this
+      omega
+    have htrue := parseShares_squareOf' thr N B (blobMinSquareSize (closedEstimate thr N B)) hv hst1 hst2
+    refine ⟨htrue, squareSeqs thr N B _, parseShares_squareOf_all thr N B _ hv hst1 hst2, squareSeqs_tile thr N B _,
+      squareSeqs_good thr N B _ hv hst1 hst2, ?_⟩
+    have := parseShares_seqs _ true (squareSeqs_good thr N B (blobMinSquareSize (closedEstimate thr N B)) hv hst1 hst2)
+    rw [squareSeqs_tile, htrue] at this
+    simp only [Bool.true_and, Except.ok.injEq] at this
+    exact this.symm
+
+/-- **C20 (sequence parsing) on every square `Construct` returns.** -/
+theorem parseShares_construct (dec : Bytes → Decoded) (hdec : DecValid dec) (txs : List Bytes) (max thr : Nat)
+    (hsz : 478 * (max * max) < 4294967296) (sq : List Bytes) (h : construct dec txs max thr = .ok sq) :
+    ∃ N bl, txs = N ++ bl ∧ (∀ r ∈ N, dec r = .normal) ∧ (∀ r ∈ bl, dec r = .blobTx (decB dec r)) ∧
+      parseShares sq true = .ok (dataSeqs thr N (bl.map (decB dec))) ∧
+      ∃ qs, parseShares sq false = .ok qs ∧ (qs.map (·.shares)).flatten = sq ∧ (∀ q ∈ qs, Good q) ∧
+        qs.filter (fun q => !q.isPadding) = dataSeqs thr N (bl.map (decB dec)) := by
+  obtain ⟨N, bl, e, hn, hbl, hfit, hsq⟩ := construct_square dec hdec txs max thr hsz sq h
+  exact ⟨N, bl, e, hn, hbl, parseShares_isSquareOf dec hdec max thr hsz N bl hbl hfit sq hsq⟩
+
+/-- **C20 (sequence parsing) on every square `Build` returns.** -/
+theorem parseShares_build (dec : Bytes → Decoded) (hdec : DecValid dec) (txs : List Bytes) (max thr : Nat)
+    (hsz : 478 * (max * max) < 4294967296) (sq kept : List Bytes) (h : build dec txs max thr = .ok (sq, kept)) :
+    ∃ N bl, kept = N ++ bl ∧ (∀ r ∈ N, dec r = .normal) ∧ (∀ r ∈ bl, dec r = .blobTx (decB dec r)) ∧
+      parseShares sq true = .ok (dataSeqs thr N (bl.map (decB dec))) ∧
+      ∃ qs, parseShares sq false = .ok qs ∧ (qs.map (·.shares)).flatten = sq ∧ (∀ q ∈ qs, Good q) ∧
+        qs.filter (fun q => !q.isPadding) = dataSeqs thr N (bl.map (decB dec)) := by
+  obtain ⟨N, bl, e, hn, hbl, hfit, hsq⟩ := build_square dec hdec txs max thr hsz sq kept h
+  exact ⟨N, bl, e, hn, hbl, parseShares_isSquareOf dec hdec max thr hsz N bl hbl hfit sq hsq⟩
+
+/-- what `Good` says, spelled out: a non-empty run of shares all carrying the record's namespace,
+    the first a sequence start, the others not, the declared length consistent with their number -/
+theorem Good.spelled {q : Sequence} (h : Good q) :
+    (∃ s rest, q.shares = s :: rest ∧ Share.isSequenceStart s = true ∧
+      ∀ c ∈ rest, Share.isSequenceStart c = false) ∧
+    (∀ s ∈ q.shares, Share.ns s = q.ns) ∧ q.validSequenceLen = true := by
+  obtain ⟨⟨⟨s, rest, hs, h1, h2⟩, hval⟩, hq⟩ := h
+  rw [hq] at hval
+  refine ⟨⟨s, rest, hs, h1, fun c hc => (h2 c hc).1⟩, ?_, hval⟩
+  intro x hx
+  have hns : q.ns = Share.ns s := by rw [← hq]; simp [seqOf, hs]
+  rw [hs] at hx
+  rcases List.mem_cons.mp hx with rfl | hx
+  · exact hns.symm
+  · rw [(h2 x hx).2, hns]
+
+end GoSquare.Tiling
